@@ -181,3 +181,78 @@ Lemma example3_reads_as_the_document :
   | None => False
   end.
 Proof. vm_compute. reflexivity. Qed.
+
+(* ================================================================== round 5 *)
+From PV Require Import Yanny.ContMany Yanny.NoFinalNL.
+
+(* ---- a fourth file (round 5): the typedef first, the pair, then the decorated data row as the LAST line, which is NOT
+   terminated by a newline; and the same file with TWO backslash continuations inside that row:
+
+       typedef struct { ... } t;              typedef struct { ... } t;
+       k v                                    k v
+       <tab>t  "5" { a b} # note<eof>         <tab>t \<nl>   "5" \ <nl><tab>{ a b} # note
+   ---- *)
+Definition ex4_skel : list sk :=
+  [ SkStruct ex2_body ex2_name; SkPair (bs "k"%string, bs "v"%string); SkRow (ex_table, [Sc (SInt 5); Sc (STok (bs "a b"%string))]) ].
+Definition ex4_items0 : list item := [ ITd KW_STRUCT ex2_body ex2_name; ILine (pair_line (bs "k"%string, bs "v"%string)) ].
+Definition ex4_items : list item := ex4_items0 ++ [ILine ex_row].
+
+Lemma example4_skeleton : skel_ok ex_doc ex_tws ex4_skel.
+Proof.
+  split; [reflexivity|]. split; [|split; [|constructor]].
+  - split.
+    + constructor; [|constructor]. split; [now left|now left].
+    + intros t [<-|[]]. reflexivity.
+  - constructor; [exact example2_typedef|constructor].
+Qed.
+
+Lemma example4_layout : idec (sy_of (d_enums ex_doc) ex_tws) (ex4_items0 ++ [ILine ex_row]) (map sk_item ex4_skel).
+Proof.
+  unfold ex4_items0, ex4_skel. cbn [map sk_item app]. repeat apply id_same.
+  change (tr_line (ex_table, [Sc (SInt 5); Sc (STok (bs "a b"%string))]))
+    with (render_row_line (upper (bs "t"%string))
+            (map (fun gc : bytes * lcell => cell_of (snd gc))
+               [([SP; SP], LSc (SInt 5) FQuoted); ([SP], LSc (STok (bs "a b"%string)) (FBraced [SP]))])).
+  unfold ex_row.
+  eapply (id_row _ [TAB] (bs "t"%string) _ _ [SP] (Some (bs " note"%string))); try reflexivity; try discriminate.
+  - split; reflexivity.
+  - constructor.
+Qed.
+
+Lemma example4_no_final_newline :
+  ex_row <> [] /\
+  match sem ex_doc with
+  | Some p => parse (items_text ex4_items0 ++ ex_row) = Some (with_texts p [] [td_text KW_STRUCT ex2_body ex2_name])
+  | None => False
+  end.
+Proof. split; [discriminate|vm_compute; reflexivity]. Qed.
+
+(* the two continuations: after the table name, and after the quoted integer *)
+Definition ex4_cut1 : nat := length (items_text ex4_items0) + 2.      (* ... <tab> t | <sp> ... *)
+Definition ex4_text : bytes := items_text ex4_items.
+Definition ex4_segs : list (bytes * bytes * bytes) :=
+  [ (firstn ex4_cut1 ex4_text, [], [SP]); (firstn 3 (skipn (ex4_cut1 + 2) ex4_text), [SP], []) ].
+Definition ex4_B : bytes := skipn (ex4_cut1 + 6) ex4_text.
+Lemma example4_continuations :
+  with_blanks ex4_segs ex4_B = items_text ex4_items /\ Forall cseg_ok ex4_segs /\ conts_heads_ok ex4_segs ex4_B /\
+  mem CR (with_conts ex4_segs ex4_B) = false /\
+  match sem ex_doc with
+  | Some p => parse (with_conts ex4_segs ex4_B) = Some (with_texts p [] [td_text KW_STRUCT ex2_body ex2_name])
+  | None => False
+  end.
+Proof.
+  split; [vm_compute; reflexivity|]. split; [repeat constructor; vm_compute; reflexivity|].
+  split; [vm_compute; repeat split; reflexivity|]. split; vm_compute; reflexivity.
+Qed.
+
+(* ---- round 5 observation: a COMMENT inside an enum block is not a freedom -- the reader (model and code alike) splits the raw
+   block body on commas, so the comment becomes part of the next label and the column is sized by it (S11 instead of S5) ---- *)
+Definition ex5_text : bytes :=
+  bs "typedef enum {"%string ++ [NL] ++ bs "  FALSE, # no"%string ++ [NL] ++ bs "  TRUE"%string ++ [NL] ++ bs "} BOOLEAN;"%string ++ [NL]
+  ++ bs "typedef struct { BOOLEAN f; int x; } T;"%string ++ [NL] ++ bs "T TRUE 1"%string ++ [NL].
+(* the reader model follows the source (Parse.enum_entry, flag Generated.YannyLits.yanny_enum_strips_comments): without the
+   repair fixes/C02-enum-block-comments.diff the column is sized by the comment (S11), with it by the labels (S5) *)
+Lemma enum_block_comment_changes_the_width :
+  option_map (fun p => map (fun t => map pc_np (pt_cols t)) (pd_tables p)) (parse ex5_text)
+  = Some [[NS (if PV.Generated.YannyLits.yanny_enum_strips_comments then 5 else 11); NI4]].
+Proof. vm_compute. reflexivity. Qed.
